@@ -2,7 +2,6 @@ package types
 
 import (
 	errorsmod "cosmossdk.io/errors"
-	sdkmath "cosmossdk.io/math"
 	keytypes "github.com/ExocoreNetwork/exocore/types/keys"
 	"github.com/ExocoreNetwork/exocore/utils"
 	assetstypes "github.com/ExocoreNetwork/exocore/x/assets/types"
@@ -364,10 +363,11 @@ func (gs GenesisState) ValidateSlashStates(operators, avs map[string]struct{}) e
 				slash,
 			)
 		}
-		if slash.Info.SlashProportion.IsNil() || slash.Info.SlashProportion.LTE(sdkmath.LegacyNewDec(0)) {
+		// a zero proportion is accepted by the keeper (CheckSlashParameter) and recorded
+		if slash.Info.SlashProportion.IsNil() || slash.Info.SlashProportion.IsNegative() {
 			return errorsmod.Wrapf(
 				ErrInvalidGenesisData,
-				"invalid slash proportion, it's nil, zero, or negative: %+v",
+				"invalid slash proportion, it's nil or negative: %+v",
 				slash,
 			)
 		}
@@ -389,30 +389,23 @@ func (gs GenesisState) ValidateSlashStates(operators, avs map[string]struct{}) e
 			)
 		}
 		// validate the slashing record regarding undelegation
-		SlashFromUndelegationVal := func(_ int, slashFromUndelegation SlashFromUndelegation) error {
-			if slashFromUndelegation.Amount.IsNil() || slashFromUndelegation.Amount.LTE(sdkmath.NewInt(0)) {
+		// the keeper records one entry per slashed undelegation record, so a staker and
+		// asset may appear more than once, and an entry may be rounded down to zero.
+		for _, slashFromUndelegation := range slash.Info.ExecutionInfo.SlashUndelegations {
+			if slashFromUndelegation.Amount.IsNil() || slashFromUndelegation.Amount.IsNegative() {
 				return errorsmod.Wrapf(
 					ErrInvalidGenesisData,
-					"invalid slashing amount from the undelegation, it's nil, zero, or negative: %+v",
+					"invalid slashing amount from the undelegation, it's nil or negative: %+v",
 					slash,
 				)
 			}
-			return nil
-		}
-		seenFieldValueFunc := func(slashFromUndelegation SlashFromUndelegation) (string, struct{}) {
-			key := assetstypes.GetJoinedStoreKey(slashFromUndelegation.StakerID, slashFromUndelegation.AssetID)
-			return string(key), struct{}{}
-		}
-		_, err = utils.CommonValidation(slash.Info.ExecutionInfo.SlashUndelegations, seenFieldValueFunc, SlashFromUndelegationVal)
-		if err != nil {
-			return errorsmod.Wrap(ErrInvalidGenesisData, err.Error())
 		}
 		// validate the slashing record regarding assets pool
 		SlashFromAssetsPoolVal := func(_ int, slashFromAssetsPool SlashFromAssetsPool) error {
-			if slashFromAssetsPool.Amount.IsNil() || slashFromAssetsPool.Amount.LTE(sdkmath.NewInt(0)) {
+			if slashFromAssetsPool.Amount.IsNil() || slashFromAssetsPool.Amount.IsNegative() {
 				return errorsmod.Wrapf(
 					ErrInvalidGenesisData,
-					"invalid slashing amount from the assets pool, it's nil, zero, or negative: %+v",
+					"invalid slashing amount from the assets pool, it's nil or negative: %+v",
 					slash,
 				)
 			}
